@@ -83,12 +83,14 @@ type Remote struct {
 	Counts  map[string]int
 	closed  bool
 	quit    chan struct{}
+	auto    chan BlockKey // auto-seed: requests to answer
 	pauseUntil time.Time
 	lastCut    time.Time
 	readErr error
 	done    chan struct{}
 	HonestAdvert bool // advertisement followed the protocol (remote view of availability is meaningful)
 	weInterested bool
+	Honest       bool // auto-seed that answers every request with the truth
 	MetaKnown bool // storrent had metadata when the connection started (bitfield rules apply)
 }
 
@@ -419,6 +421,12 @@ func (r *Remote) onRequest(m refwire.Msg) {
 		n += c
 	}
 	sw.C.R.Max("max:outstanding_requests", int64(n))
+	if r.auto != nil {
+		select {
+		case r.auto <- k:
+		default:
+		}
+	}
 	if r.reqq > 0 {
 		lim := r.reqq
 		if lim < 2 {
@@ -811,4 +819,65 @@ func (r *Remote) noteRequest(m refwire.Msg) {
 	}
 	r.mu.Unlock()
 	r.Tr.Sw.C.Count("our_requests", 1)
+}
+
+// SeedMode configures AutoSeed.
+type SeedMode struct {
+	CorruptEvery int           // every n-th block is corrupted (0 = never)
+	Delay        time.Duration // answer delay (virtual)
+	Silent       bool          // never answers
+}
+
+// AutoSeed turns the remote into a seed that advertises everything, unchokes and answers
+// every request by itself (honestly, slowly, or corrupting some blocks).
+func (r *Remote) AutoSeed(m SeedMode) {
+	r.mu.Lock()
+	r.auto = make(chan BlockKey, 4096)
+	r.mu.Unlock()
+	have := make([]bool, len(r.adv))
+	for i := range have {
+		have[i] = true
+	}
+	r.HonestAdvert = true
+	r.Send(refwire.Msg{Kind: refwire.KBitfield, Data: bitfieldOf(have)})
+	r.Send(refwire.Msg{Kind: refwire.KUnchoke})
+	go func() {
+		n := 0
+		ka := time.NewTicker(100 * time.Second) // a real peer sends keep-alives; storrent drops silent peers after 5 minutes
+		defer ka.Stop()
+		for {
+			select {
+			case <-r.quit:
+				return
+			case <-r.done:
+				return
+			case <-ka.C:
+				r.write(refwire.Encode(refwire.Msg{Kind: refwire.KKeepAlive}))
+			case k := <-r.auto:
+				if m.Silent {
+					continue
+				}
+				if m.Delay > 0 {
+					tm := time.NewTimer(m.Delay)
+					select {
+					case <-tm.C:
+					case <-r.quit:
+						tm.Stop()
+						return
+					}
+				}
+				n++
+				kind := "truth"
+				if m.CorruptEvery > 0 && n%m.CorruptEvery == 0 {
+					kind = "corrupt"
+				}
+				r.mu.Lock()
+				still := r.out[k] > 0 && !r.choking
+				r.mu.Unlock()
+				if still {
+					r.Answer(k, kind, uint64(n)*2654435761)
+				}
+			}
+		}
+	}()
 }
